@@ -9,6 +9,10 @@ S=$(mktemp -d "${TMPDIR:-/tmp}/verif-setup-XXXXXX")
 trap 'rm -rf "$S"' EXIT
 stage_inst "$S"
 if [ -d harness/plain/cmd/pharness ]; then stage_plain "$S"; fi
+# the repository's own test suite, rewritten by the same pass (mocks and tests included), must stay green on the
+# runtime's pass-through mode: validates the rewriter on all of sx's code
+(cd "$S/inst" && go test -tags verif -vet=off -count=1 ./... > "$S/suite.log" 2>&1) || { grep -v "^ok\|no test files" "$S/suite.log" | head -40; echo "setup: sx's suite fails through the rewritten tree"; exit 1; }
+echo "sx suite through the rewritten tree: $(grep -c '^ok' "$S/suite.log") packages ok"
 # runtime-model conformance (litmus suite): the explorer's channel/select/sync/context/timer model against the real Go runtime
 ./check ENGINE quick > "$S/engine.log" 2>&1 || { cat "$S/engine.log"; echo "setup: litmus conformance suite failed"; exit 1; }
 tail -1 "$S/engine.log"
